@@ -62,6 +62,8 @@ def tasks(tier, seed, deepest=True):
                     for atd in (False, True):
                         if atd and NP == 1:
                             continue
+                        if atd and NP == 4 and K >= 3 and not (NL == 1 and jac):
+                            continue  # all_to_done with 4 steps and 3 iterations has 58000 patterns per configuration: one configuration only
                         for ns in ((1, 2) if NP <= 3 and K <= 3 else (1,)):
                             T.append((NP, NL, K, pred, jac, atd, ns, None))
         if deepest:
